@@ -129,6 +129,126 @@ def case(ctx, idx, res):
     res.sample = {'document': xml[:200], 'pattern': pat}
 
 
+# ---- the places that use patterns ----------------------------------------------------------------------------------------------
+NODE_KEY = "concat(count(ancestor::node() | preceding::node()), '/', name(self::node()[not(self::*)][count(. | ../@*) = count(../@*)]), '/', count(self::text()), count(self::comment()), count(self::processing-instruction()))"
+
+
+def usesite_case(ctx, idx, res):
+    """template match, xsl:key match and xsl:number count must agree with getMatchScore on every node (what getMatchScore is measured against is
+    the other family's matter).  Every node of the document goes through apply-templates in a mode whose only rule of high priority has the
+    pattern; key() lists the nodes the key table was built from; xsl:number level="single" count=P is predicted from the matching set."""
+    import gen_xslt
+    import xsltcommon as XC
+    r = rng_for(ctx.seed, 'c09u', idx)
+    drv = ctx.drv('plain')
+    runner = ctx.cache.get('runner')
+    if runner is None:
+        runner = ctx.cache['runner'] = XC.Runner(ctx, 'plain')
+    xml, info = gen_xml.gen_doc(r, size=r.choice([10, 20, 35]), ns=r.random() < 0.6)
+    doc = refxml.parse(xml)
+    nodes = [n for n in c02.all_nodes(doc) if n.kind != refxml.NS]
+    env = X.Env(namespaces=NS)
+    keyexpr = X.parse(NODE_KEY)
+    ident = {}
+    for n in nodes:
+        ident[X.to_string(X.evaluate(keyexpr, X.Context(n, 1, 1, env)))] = n
+    if len(ident) != len(nodes):
+        res.inconclusive.append('harness-exception: node keys are not unique')
+        return
+    h = drv.call(cmd='xdoc', xml=xml, xerces=0)['doc'].decode()
+    res.evals = 0
+    sigs = set()
+    try:
+        for j in range(12):
+            g = gen_xpath.Gen(r, info, {}, max_depth=2)
+            pat = gen_xpath.gen_pattern(g, allow_id=False)
+            try:
+                alts = X.parse_pattern(pat)
+            except X.XPathSyntaxError:
+                continue
+            if any(X.static_errors(a, xslt=False, namespaces=NS) for a in alts):
+                continue
+            rp = drv.call(cmd='match', doc=h, pattern=pat, ns='\n'.join('%s=%s' % kv for kv in NS.items()))
+            if 'scores' not in rp:
+                continue
+            direct = set()
+            for line in rp['scores'].decode().split('\n'):
+                if line and '/ns:' not in line.split(' ')[0]:
+                    p_, sc = line.rsplit(' ', 1)
+                    if sc != 'none':
+                        direct.add(p_)
+            e = gen_xslt.aesc(pat)
+            xsl = ((gen_xslt.HEAD % '') + '<xsl:key name="kp" match="%s" use="\'k\'"/>'
+                   '<xsl:template match="/"><out><t><xsl:apply-templates select="//node()|//@*|/" mode="m"/></t><k><xsl:for-each select="key(\'kp\',\'k\')"><h p="{%s}"/></xsl:for-each></k>'
+                   '<c><xsl:for-each select="//node()|//@*"><n p="{%s}"><xsl:number count="%s"/></n></xsl:for-each></c></out></xsl:template>'
+                   '<xsl:template match="%s" mode="m" priority="5"><h p="{%s}"/></xsl:template><xsl:template match="node()|@*|/" mode="m" priority="-5"/></xsl:stylesheet>'
+                   % (e, NODE_KEY, NODE_KEY, e, e, NODE_KEY))
+            rx = runner.transform(xsl, xml)
+            res.evals += 1
+            payload = {'pattern': pat, 'document': xml, 'stylesheet': xsl}
+            if rx.status != 0:
+                res.viol('usesite|fails|' + C.skeleton(pat), 'the pattern %r is accepted by the pattern compiler but the stylesheet using it fails: %s' % (pat, rx.err[:200]), payload)
+                continue
+            t = refxml.parse(XC._DECL.sub('', rx.out.decode('utf-8')))
+            out = [c for c in t.children if c.kind == refxml.ELEM][0]
+            parts = dict((c.local, c) for c in out.children if c.kind == refxml.ELEM)
+
+            def paths(el):
+                got = set()
+                for c in el.children:
+                    if c.kind == refxml.ELEM:
+                        k = dict((a.local, a.value) for a in c.attrs)['p']
+                        got.add(ident[k].path() if k in ident else '?' + k)
+                return got
+            for site, el in (('template', parts['t']), ('key', parts['k'])):
+                got = paths(el)
+                if got != direct:
+                    diff = sorted(got ^ direct)
+                    res.viol('usesite|%s|%s' % (site, 'extra' if diff[0] in got else 'missing'), 'pattern %r as %s: node %s is %s, getMatchScore says %s' % (
+                        pat, 'template match' if site == 'template' else 'xsl:key match', diff[0], 'matched' if diff[0] in got else 'not matched', 'match' if diff[0] in direct else 'no match'), payload)
+                    break
+                res.count('usesite_%s_agrees' % site)
+            # xsl:number level="single" count=P, predicted from the matching set
+            bad = None
+            for c in parts['c'].children:
+                if c.kind != refxml.ELEM:
+                    continue
+                k = dict((a.local, a.value) for a in c.attrs)['p']
+                n = ident.get(k)
+                if n is None:
+                    continue
+                a = n
+                while a is not None and a.path() not in direct:
+                    a = a.parent
+                want = ''
+                if a is not None and a.kind != refxml.ROOT:
+                    sibs = a.parent.children if a.kind not in (refxml.ATTR,) else []
+                    before = 0
+                    for s_ in sibs:
+                        if s_ is a:
+                            break
+                        if s_.path() in direct:
+                            before += 1
+                    want = str(before + 1)
+                elif a is not None:
+                    want = '1'
+                if c.string_value() != want:
+                    bad = (n.path(), c.string_value(), want)
+                    break
+            if bad:
+                res.viol('usesite|number-count', 'xsl:number count=%r at node %s gives %r; from the nodes getMatchScore matches it is %r' % (pat, bad[0], bad[1], bad[2]), payload)
+            else:
+                res.count('usesite_number_agrees')
+            sigs.add(C.skeleton(pat))
+    finally:
+        try:
+            drv.call(cmd='xdocdel', doc=h)
+        except DriverDied:
+            pass
+    res.sigs = sigs
+    res.sample = {'kind': 'usesite'}
+
+
 def _mentions_position(a):
     if not isinstance(a, tuple):
         return False
@@ -272,7 +392,8 @@ def main():
     chk.ensure('plain', 'xvdrv')
     n = 400 if chk.tier == 'quick' else 20000
     chk.run_cases('c09', 'case', range(n))
-    chk.finish(min_nontrivial=200, required_stats=('node_tests', 'patterns_matching_something'))
+    chk.run_cases('c09', 'usesite_case', range(n // 2))
+    chk.finish(min_nontrivial=200, required_stats=('node_tests', 'patterns_matching_something', 'usesite_template_agrees', 'usesite_key_agrees', 'usesite_number_agrees'))
 
 
 if __name__ == '__main__':
